@@ -13,19 +13,22 @@ Import ListNotations.
 (** For every resolver / stdin assembly / fuel / symbol table / case / oracle on which C10's model
     evaluates without a model error, and every test-case status other than SKIP: the executor's
     verdict on the lowered case is [translate_status] of the kind of the failure it reports; it
-    reports no failure iff C10's verdict is PASS; a reported failure is a main step (act: execute),
-    and - unless it is located in before-assert - its kind is C10's verdict (FAIL from [assert],
-    HARD_ERROR from elsewhere). *)
+    reports no failure iff C10's verdict is PASS (and C10 reports no phase); a reported failure is a main
+    step (act: execute), its kind is C10's verdict (FAIL from [assert], HARD_ERROR from elsewhere) and its
+    phase is the phase C10 reports ([rs_phase], through [code_of_phase]) - in ALL cases: a before-assert
+    failure followed by a failing cleanup is reported in before-assert, a setup / act / assert failure
+    followed by a failing cleanup in cleanup, by both models. *)
 Theorem C10C01_verdict_through_executor : forall R A fuel mode cwd tbl0 c oracle res,
   run_case_with R A fuel cwd tbl0 c oracle = Ok res -> mode <> TSkip ->
   let r := snd (full_execute (lower R A fuel mode cwd tbl0 c oracle)) in
   fr_status r = translate_status mode (option_map f_status (fr_failure r)) /\
   match fr_failure r with
-  | None => rs_verdict res = StPass
+  | None => rs_verdict res = StPass /\ rs_phase res = 0%N
   | Some f =>
       rs_verdict res <> StPass /\
       f_step f = (match f_phase f with Exec.Act => SExecute | _ => SMain end) /\
-      (f_phase f <> BeforeAssert -> kind_of (rs_verdict res) = f_status f)
+      kind_of (rs_verdict res) = f_status f /\
+      rs_phase res = code_of_phase (f_phase f)
   end.
 Proof. exact verdict_through_executor. Qed.
 Print Assumptions C10C01_verdict_through_executor.
@@ -33,9 +36,10 @@ Print Assumptions C10C01_verdict_through_executor.
 Theorem C10C01_verdict_table : forall R A fuel mode cwd tbl0 c oracle res,
   run_case_with R A fuel cwd tbl0 c oracle = Ok res -> mode <> TSkip ->
   let r := snd (full_execute (lower R A fuel mode cwd tbl0 c oracle)) in
-  (fr_failure r = None -> rs_verdict res = StPass /\ fr_status r = translate_status mode None) /\
-  (forall f, fr_failure r = Some f -> f_phase f <> BeforeAssert ->
-     fr_status r = translate_status mode (Some (kind_of (rs_verdict res)))).
+  (fr_failure r = None -> rs_verdict res = StPass /\ rs_phase res = 0%N /\ fr_status r = translate_status mode None) /\
+  (forall f, fr_failure r = Some f ->
+     fr_status r = translate_status mode (Some (kind_of (rs_verdict res))) /\
+     rs_phase res = code_of_phase (f_phase f)).
 Proof. exact verdict_table. Qed.
 Print Assumptions C10C01_verdict_table.
 
